@@ -4,11 +4,16 @@
 -/
 import Gzx.Obligations.C06Row39
 import Gzx.Proofs.Row39Code93
+import Gzx.Proofs.Row39Code39
 namespace Gzx.Obligations.C03Row39
 open Gzx Gzx.OneD Gzx.Row39 Gzx.Obligations.C06Row39
 
 /-- hypothesis of `code93_row_read_write`: 48 distinct words of three bars and three spaces in nine modules, each
     read back by `code93ToPattern` at one pixel per module; 48 distinct alphabet characters, the last one '*' -/
 theorem gen_wf93row : WF93Row genRowTables = true := by decide +kernel
+
+/-- hypothesis of `code39_row_read_write`: 43 encodings and the asterisk pairwise distinct, each nine elements with
+    exactly three wide ones; 43 alphabet characters, none of them '*' -/
+theorem gen_wf39row : WF39Row genRowTables = true := by decide +kernel
 
 end Gzx.Obligations.C03Row39
